@@ -102,7 +102,10 @@ def run(ctx):
         res.ok('datacount/function-uses', {'second_disjunct': 'any local function with non-empty used_data_segments()'})
     else:
         res.bad('datacount/function-uses', 'the function-side condition is not `!used_data_segments().is_empty()`' if second_ok is False
-                else 'emit_data_count never asks the local functions whether they use data segments (memory.init / data.drop)')
+                else 'emit_data_count does not ask the local functions whether the code that will be emitted for them uses data segments '
+                '(`used_data_segments()`, the traversal from the entry block that the code emitter follows): a scan of anything else - one '
+                'sequence, or every sequence in the arena, attached or not - omits a required DataCount section or emits one that a '
+                're-parse of the output no longer produces')
     # (e2) re-check: element idx0 obligations exist in R-FLOW-SEG
     import r_segments
     sub = r_segments.run(ctx) if not hasattr(ctx, '_seg') else ctx._seg
